@@ -82,6 +82,19 @@ def cases(tier, seed):
 # ------------------------------------------------------------------------------------------
 def _judge_v2i(ctx, misc, SPSDKError, s):
     exp = numgrammar.parse_number(s)
+    hist = len(s) % 3 == 1 or s[-1:] in "7fl "
+    if hist:
+        # the same text is converted with a default first (the library does that all the time: value_to_int(x, 0)): the
+        # default answers for THAT call only, the text has its own meaning in every later call
+        try:
+            d1 = misc.value_to_int(s, 7)
+        except Exception as e:  # pylint: disable=broad-except
+            ctx.violation("value_to_int-raises-despite-default", {"input": s, "exception": core.exc_brief(e)})
+            return None
+        if d1 != (exp if exp is not None else 7):
+            ctx.violation("value_to_int-default-wrong", {"input": s, "default": 7, "spsdk": d1, "grammar": exp})
+            return None
+        ctx.count("value_to_int_histories")
     try:
         got = misc.value_to_int(s)
         acc = True
@@ -94,6 +107,14 @@ def _judge_v2i(ctx, misc, SPSDKError, s):
         ctx.violation("value_to_int-accept-mismatch", {"input": s, "spsdk": got, "grammar": exp})
     elif acc and got != exp:
         ctx.violation("value_to_int-wrong-value", {"input": s, "spsdk": got, "grammar": exp})
+    elif hist:
+        try:
+            d2 = misc.value_to_int(s, 9)
+        except Exception as e:  # pylint: disable=broad-except
+            ctx.violation("value_to_int-raises-despite-default", {"input": s, "exception": core.exc_brief(e)})
+            return acc
+        if d2 != (exp if exp is not None else 9):
+            ctx.violation("value_to_int-answer-depends-on-earlier-calls", {"input": s, "default": 9, "spsdk": d2, "grammar": exp, "earlier_default": 7})
     return acc
 
 
